@@ -110,6 +110,53 @@ def local_completeness():
     return obs
 
 
+GUARD_OK = ("self.", "include_partials", "template", "isinstance(self.")
+
+
+def _presence_test(test):
+    """`self.X`, `self.X is not None`, `isinstance(self.X, T)`, `include_partials`, a local"""
+    if isinstance(test, ast.Attribute) and isinstance(test.value, ast.Name):
+        return True   # self.X, or item.value for the item of a comprehension over a field
+    if isinstance(test, ast.Name):
+        return True
+    if isinstance(test, ast.Compare) and len(test.ops) == 1 and isinstance(test.ops[0], ast.IsNot) and isinstance(test.comparators[0], ast.Constant) and test.comparators[0].value is None:
+        return _presence_test(test.left)
+    if isinstance(test, ast.Call) and flow.dotted(test.func) == "isinstance" and _presence_test(test.args[0]):
+        return True
+    return False
+
+
+@structural("C19", "meta-guards")
+def meta_guards():
+    """children()/expressions() report a field under no condition other than that the field is
+    present (the render methods use it whenever it is present); the partial's bound-variable
+    name is in scope exactly when render binds it (a with/for variable was given)"""
+    obs = []
+    n = 0
+    for m in load.all_modules():
+        mod = load.get_module(m)
+        for cname, cnode in mod.classes.items():
+            for fn in [x for x in cnode.body if isinstance(x, (ast.FunctionDef, ast.AsyncFunctionDef)) and x.name in ("children", "expressions")]:
+                tests = [t.test for t in ast.walk(fn) if isinstance(t, (ast.If, ast.IfExp))] + [i for c in ast.walk(fn) if isinstance(c, ast.comprehension) for i in c.ifs]
+                bad = [flow.dotted(t)[:60] for t in tests if not _presence_test(t)]
+                if tests:
+                    n += 1
+                    obs.append(flow.ob(f"{cname}.{fn.name}:reports-a-field-whenever-it-is-present", not bad, str(bad), replay_schema="code", replay_extra={"code": REPLAY_GUARD}))
+    obs.append(flow.ob("guarded-meta-methods-found", n >= 10, f"{n}"))
+    for m, cname in (("liquid.builtin.tags.render_tag", "RenderNode"), ("liquid.builtin.tags.include_tag", "IncludeNode")):
+        ps = load.find_method(m, cname, "partial_scope")[2]
+        pm = flow.parents(ps)
+        apps = [c for c in flow.calls(ps) if flow.dotted(c.func) == "scope.append"]
+        ok = bool(apps)
+        for a in apps:
+            guards = [flow.dotted(i.test) for i in flow.enclosing(pm, a, (ast.If,))]
+            ok = ok and any(g in ("self.var", "self.var is not None") for g in guards)
+        rt = load.find_method(m, cname, "render_to_output")[2]
+        binds = [flow.dotted(i.test) for i in ast.walk(rt) if isinstance(i, ast.If) and "self.var" in flow.dotted(i.test)]
+        obs.append(flow.ob(f"{cname}.partial_scope:the-bound-variable-name-is-in-scope-only-when-a-variable-is-bound", ok and bool(binds), f"appends guarded by self.var: {ok}; render binds under {binds[:2]}", replay_schema="code", replay_extra={"code": REPLAY_GUARD}))
+    return obs
+
+
 @structural("C19", "traversal-shape")
 def traversal_shape():
     """both _visit variants record tags, variables, filters and template-scope names before any
@@ -139,6 +186,16 @@ not_covered("C19", "dynamic partial names (the analysis evaluates them staticall
             "the ghost-scope obligation on the partial de-duplication (first visit's scope must be contained in later visits' scope) is decided by the bounded dynamic-reads check")
 
 bounded("C19", "bounded/C19.py")
+
+REPLAY_GUARD = r'''
+def run(m):
+    from liquid import DictLoader, Environment
+    env = Environment(loader=DictLoader({"product": "{{ product }}"}))
+    a = env.from_string("{% render 'product' %}{% for x in y %}{% else %}{% assign z = fallback | upcase %}{% endfor %}").analyze()
+    g = sorted(a.globals)
+    return {"violated": g != ["fallback", "product", "y"], "observed": g}
+'''
+
 
 REPLAY = r'''
 def run(m):
